@@ -1122,8 +1122,9 @@ def _index_uses(root: ast.AST, container: str) -> List[Tuple[ast.Subscript, str]
             key = dotted(sub.slice)
             if key is None and isinstance(sub.slice, ast.Subscript):
                 # container[node.children[i]]
-                if _is_children_expr(sub.slice, dotted(sub.slice.value.value) or ""):  # type: ignore[union-attr]
-                    key = "<child-of>" + (dotted(sub.slice.value.value) or "")  # type: ignore[union-attr]
+                inner = getattr(sub.slice.value, "value", None)
+                if inner is not None and _is_children_expr(sub.slice, dotted(inner) or ""):
+                    key = "<child-of>" + (dotted(inner) or "")
             if key is not None:
                 out.append((sub, key))
     return out
